@@ -71,7 +71,7 @@ impl Ctx {
         rejudge_bytes: &(dyn Fn(&[u8]) -> Option<(Value, CaseResult)> + Sync),
         rejudge_json: &(dyn Fn(&Value) -> Option<CaseResult> + Sync),
     ) {
-        if !self.part_enabled(&format!("{}/libfuzzer", c.part)) {
+        if !self.part_enabled(&format!("{}/libfuzzer", c.part)) || self.variant.is_some() {
             return;
         }
         let t0 = Instant::now();
